@@ -739,6 +739,7 @@ class RustExpr:
         self.env = env          # name -> type
         self.structs = structs  # struct -> {field: type}
         self.consts = consts    # const name -> type
+        self.subst = {}         # name -> Lean expression to put in its place (symbolic execution of statement blocks)
 
     def peek(self):
         return self.toks[self.i] if self.i < len(self.toks) else None
@@ -863,7 +864,7 @@ class RustExpr:
                     return self.postfix(f"(max {args[0][0]} {args[1][0]})", args[0][1] or args[1][1])
                 raise TranslateError(f"call of {t}")
             if t in self.env:
-                return self.postfix(t, self.env[t])
+                return self.postfix("(" + self.subst[t] + ")" if t in self.subst else t, self.env[t])
             if t in self.consts:
                 return self.postfix(t, self.consts[t])
             raise TranslateError(f"unknown name {t}")
@@ -883,6 +884,11 @@ class RustExpr:
                 self.expect(")")
                 if name == "saturating_sub" and len(args) == 1:
                     e = f"({e} - {args[0][0]})"
+                elif name in ("saturating_add", "saturating_mul") and len(args) == 1 and (ty in INT_BITS or ty is None):
+                    bits = INT_BITS.get(ty or args[0][1] or "u16", 16)
+                    op = "+" if name == "saturating_add" else "*"
+                    e = f"(min ({e} {op} {args[0][0]}) {2 ** bits - 1})"
+                    ty = ty or args[0][1]
                 elif name == "min" and len(args) == 1:
                     e = f"(min {e} {args[0][0]})"
                 else:
@@ -964,6 +970,139 @@ class RustExpr:
         v, ty = self.expr()
         self.expect("}")
         return v, ty
+
+
+def sym_exec(text, types, consts, state):
+    """Symbolic execution of a straight-line Rust statement block (`let [mut] x = e;`, `x = e;`, `x += e;`,
+    `if c { .. } [else { .. }]` without a value) over the mutable variables in `state` (name -> Lean expression in
+    terms of the inputs).  Returns the final state.  Everything else raises TranslateError."""
+    px = RustExpr(text, dict(types), {}, consts)
+
+    def expr(st, no_struct=False):
+        px.subst = dict(st)
+        e, ty = px.expr(no_struct=no_struct)
+        return e, ty
+
+    def block(st):
+        st = dict(st)
+        while px.peek() is not None and px.peek() != "}":
+            t = px.peek()
+            if t == "let":
+                px.next()
+                if px.peek() == "mut":
+                    px.next()
+                name = px.next()
+                if px.peek() == ":":
+                    px.next(); px.next()
+                px.expect("=")
+                e, ty = expr(st)
+                px.expect(";")
+                px.env[name] = ty or px.env.get(name)
+                st[name] = e
+            elif t == "if":
+                px.next()
+                c, _ = expr(st, no_struct=True)
+                px.expect("{")
+                s1 = block(st)
+                px.expect("}")
+                if px.peek() == "else":
+                    px.next()
+                    px.expect("{")
+                    s2 = block(st)
+                    px.expect("}")
+                else:
+                    s2 = dict(st)
+                if px.peek() == ";":
+                    px.next()
+                merged = {}
+                for k in set(s1) | set(s2):
+                    a, b = s1.get(k, st.get(k)), s2.get(k, st.get(k))
+                    if a is None or b is None:
+                        continue   # a variable local to one branch
+                    merged[k] = a if a == b else f"(if {c} then {a} else {b})"
+                st = merged
+            elif px.i + 1 < len(px.toks) and px.toks[px.i + 1] in ("=", "+") and t in px.env:
+                name = px.next()
+                op = px.next()
+                if op == "+":
+                    px.expect("=")
+                    e, _ = expr(st)
+                    st[name] = f"({st[name]} + {e})"
+                else:
+                    e, _ = expr(st)
+                    st[name] = e
+                if px.peek() == ";":
+                    px.next()
+            else:
+                raise TranslateError(f"statement starting with {t!r} is outside the translated subset")
+        return st
+
+    out = block(state)
+    if not px.done():
+        raise TranslateError("unbalanced block")
+    return out
+
+
+def gen_score_loop():
+    """calculate_score: the unrolled first iteration, the two branches of the loop body and the prefer_prefix tail"""
+    src = strip_comments(read("matcher/src/score.rs"))
+    body = fn_bodies(src).get("calculate_score", [None])[0]
+    if body is None:
+        raise TranslateError("fn calculate_score not found")
+    consts = {k: "u16" for k in ("SCORE_MATCH", "PENALTY_GAP_START", "PENALTY_GAP_EXTENSION", "BONUS_BOUNDARY", "BONUS_CONSECUTIVE",
+                                "BONUS_FIRST_CHAR_MULTIPLIER", "MAX_PREFIX_BONUS", "PREFIX_BONUS_SCALE")}
+    m = re.search(r"let mut in_gap = (\w+);\s*let mut consecutive = (\d+);", body)
+    if not m:
+        raise TranslateError("initial in_gap / consecutive not found")
+    init_gap, init_consec = m.group(1), m.group(2)
+    m = re.search(r"let mut first_bonus = self\.bonus_for\(prev_class, class\);\s*let mut score = ([^;]+);", body)
+    if not m:
+        raise TranslateError("unrolled first iteration not found")
+    first, _ = RustExpr(m.group(1), {"first_bonus": "u16"}, {}, consts).expr()
+    m = re.search(r"if c == needle_char \{(.*?)if let Some\(&next\) = needle_iter\.next\(\) \{.*?\}\s*\} else \{(.*?)\}\s*prev_class = class;", body, re.S)
+    if not m:
+        raise TranslateError("the loop body of calculate_score has an unexpected shape")
+    mt, sk = m.group(1), m.group(2)
+    mt = re.sub(r"if INDICES \{.*?\}\s*", "", mt, flags=re.S)
+    mm = re.match(r"\s*let mut bonus = self\.bonus_for\(prev_class, class\);(.*)", mt, re.S)
+    if not mm:
+        raise TranslateError("the matching branch does not start with the bonus_for call")
+    types = {"bonus": "u16", "first_bonus": "u16", "score": "u16", "in_gap": "bool", "consecutive": "usize"}
+    inputs = {k: k for k in types}
+    sm = sym_exec(mm.group(1), types, consts, inputs)
+    ss = sym_exec(sk, types, consts, inputs)
+    for st in (sm, ss):
+        extra = set(st) - set(types) - {"penalty"}
+        if extra:
+            raise TranslateError(f"unexpected variables in the loop body: {sorted(extra)}")
+    # the prefer_prefix tail
+    m = re.search(r"if self\.config\.prefer_prefix \{\s*if start != 0 \{(.*?)\} else \{(.*?)\}\s*\}\s*score\s*\}\s*$", body, re.S)
+    if not m:
+        raise TranslateError("the prefer_prefix tail of calculate_score has an unexpected shape")
+    t1 = m.group(1).replace("(start - 1).min(u16::MAX as usize) as u16", "start_minus_1_clamped")
+    tt = {"score": "u16", "start_minus_1_clamped": "u16"}
+    st1 = sym_exec(t1, tt, consts, {"score": "score", "start_minus_1_clamped": "start_minus_1_clamped"})
+    st2 = sym_exec(m.group(2), tt, consts, {"score": "score", "start_minus_1_clamped": "start_minus_1_clamped"})
+    fields = ["bonus", "first_bonus", "score", "in_gap", "consecutive"]
+    def rec(st):
+        return "{ " + ", ".join(f"{f} := {st[f]}" for f in fields) + " }"
+    out = ["/- GENERATED by translator/translate.py from matcher/src/score.rs (fn calculate_score) — do not edit -/",
+           "import NucleoVerif.Gen.Consts", "namespace NucleoVerif.Gen.ScoreLoop", "open NucleoVerif.Gen", "",
+           "/-- the mutable variables of the loop of `calculate_score` (`bonus`: the value of `self.bonus_for(prev_class, class)` on entry to the matching branch) -/",
+           "structure Vars where", "  bonus : Nat", "  first_bonus : Nat", "  score : Nat", "  in_gap : Bool", "  consecutive : Nat", "deriving DecidableEq, Repr", "",
+           f"def init_in_gap : Bool := {init_gap}", f"def init_consecutive : Nat := {init_consec}", "",
+           "/-- `score` after the unrolled first iteration -/", f"def first_score (first_bonus : Nat) : Nat := {first}", "",
+           "/-- the branch `c == needle_char` of the loop body (symbolic execution of its statements; `u16::saturating_add` is `min (· + ·) 65535`) -/",
+           "def match_step (bonus first_bonus score : Nat) (in_gap : Bool) (consecutive : Nat) : Vars :=", "  " + rec(sm), "",
+           "/-- the other branch -/",
+           "def skip_step (bonus first_bonus score : Nat) (in_gap : Bool) (consecutive : Nat) : Vars :=", "  " + rec(ss), "",
+           "/-- the `prefer_prefix` tail: `score` afterwards (`start_minus_1_clamped` = `(start - 1).min(u16::MAX)`) -/",
+           f"def prefix_tail (score start start_minus_1_clamped : Nat) : Nat := if start ≠ 0 then {st1['score']} else {st2['score']}", "",
+           "end NucleoVerif.Gen.ScoreLoop"]
+    return "\n".join(out) + "\n"
+
+
+GENERATORS["ScoreLoop.lean"] = gen_score_loop
 
 
 def rust_struct_fields(src, name):
